@@ -8,6 +8,8 @@
 import JanetModel.Emit.Proofs
 import JanetModel.Bytecode.Exec
 import JanetModel.Lang.SemProps
+import JanetModel.Bytecode.ExecFrame
+import JanetModel.Gen.FiberFrame
 namespace JanetModel.Props.C02
 open JanetModel.Emit
 
@@ -98,6 +100,23 @@ example : valOf ((run litN FN m0 (emitSSS (fun _ => 0) 6 true (.loc 300) (.up 1 
 example : valOf ((run litN FN m0 (emitSSS (fun _ => 0) 6 true (.ref 1) (.const (.int 70000)) (.loc 299) 0xF0 0xF1 0xF2 0xF5)).cell 1) = 70000 + 2990 := by
   decide
 example : (Slot.loc 300).avoids [0xF0, 0xF1, 0xF2, 0xF5] := by intro i h; injection h with h; subst h; decide
+
+/-! ### frame set-up (calls and tail calls) -/
+
+/-- regenerated from fiber.c on every run: both `janet_fiber_funcframe` and `janet_fiber_funcframe_tail` check the arity,
+    pack surplus arguments, and nil every slot that received no argument (normal call: old stack top .. new stack top; tail
+    call: the gap before the vararg slot and the locals above the moved arguments).  This is what `Exec.mkRegs` assumes. -/
+theorem frame_setup_shape :
+    (JanetModel.Gen.FiberFrame.callArityChecks && JanetModel.Gen.FiberFrame.callNilFill && JanetModel.Gen.FiberFrame.callVarargPack &&
+     JanetModel.Gen.FiberFrame.tailArityChecks && JanetModel.Gen.FiberFrame.tailNilFillBeforeVararg &&
+     JanetModel.Gen.FiberFrame.tailNilFillLocals && JanetModel.Gen.FiberFrame.tailVarargPack) = true := by decide
+
+/-- in the VM model an omitted optional parameter (any slot at or above the number of arguments) is nil -/
+theorem mkRegs_omitted_nil (heap : Array JanetModel.Bytecode.Exec.HeapObj) (d : JanetModel.Bytecode.Exec.FuncDef)
+    (args regs : Array JanetModel.Bytecode.Exec.Value) (hv : d.vararg = false)
+    (h : JanetModel.Bytecode.Exec.mkRegs heap d args = some regs) (i : Nat) (hi : args.size ≤ i) :
+    regs.getD i .nil = .nil :=
+  JanetModel.Bytecode.Exec.mkRegs_omitted_nil heap d args regs hv h i hi
 
 /-! ### the reference semantics is context independent -/
 section Sem
